@@ -330,6 +330,24 @@ func (ab actionsBuilder) prepareProcessorActions(oldConfig, newConfig config.Pro
 		return nil
 	}
 
+	// the condition is fixed when a processor is created (the processor service
+	// has no way to change it afterwards), so a changed condition means the
+	// processor has to be recreated
+	if oldConfig.Condition != newConfig.Condition {
+		return []action{
+			deleteProcessorAction{
+				cfg:              oldConfig,
+				parent:           parent,
+				processorService: ab.processorService,
+			},
+			createProcessorAction{
+				cfg:              newConfig,
+				parent:           parent,
+				processorService: ab.processorService,
+			},
+		}
+	}
+
 	// the processor changed, and all parts of a processor are updateable
 	return []action{updateProcessorAction{
 		oldConfig:        oldConfig,
